@@ -115,6 +115,15 @@ theorem b_uint32 (n s x) (w : World) : builtin "uint32_to_string" [.int n s x] w
 theorem b_uint64 (n s x) (w : World) : builtin "uint64_to_string" [.int n s x] w = some (.ok (.str (showInt x)) w) := by
   int_ts' "uint64_to_string" "uint"
 
+theorem b_f32 (n x) (w : World) : builtin "float32_to_string" [.float n x] w = some (.ok (.str (showFloat n x)) w) := by
+  have h1 : ("float32_to_string" : String).endsWith "_to_string" = true := by decide +kernel
+  have h2 : ("float32_to_string" : String).startsWith "float" = true := by decide +kernel
+  simp [Sem.builtin, h1, h2]
+theorem b_f64 (n x) (w : World) : builtin "float64_to_string" [.float n x] w = some (.ok (.str (showFloat n x)) w) := by
+  have h1 : ("float64_to_string" : String).endsWith "_to_string" = true := by decide +kernel
+  have h2 : ("float64_to_string" : String).startsWith "float" = true := by decide +kernel
+  simp [Sem.builtin, h1, h2]
+
 /-- an admitted builtin applied to arguments of its parameter types returns a value of its result type -/
 theorem builtin_sound {f : String} {ps : List Ty} {r : Ty} {args : List Val} {w w' : World} {v : Val}
     (hb : builtinTy f = some (.func ps r)) (ha : VTs S P args ps)
@@ -149,6 +158,16 @@ theorem builtin_sound {f : String} {ps : List Ty} {r : Ty} {args : List Val} {w 
     rw [b_uint32] at hr; simp at hr; obtain ⟨rfl, _⟩ := hr; constructor
   · obtain ⟨x, rfl⟩ := VT_int ha1
     rw [b_uint64] at hr; simp at hr; obtain ⟨rfl, _⟩ := hr; constructor
+  · obtain ⟨b, rfl⟩ := VT_bool ha1
+    simp [builtin] at hr; obtain ⟨rfl, _⟩ := hr; constructor
+  · obtain ⟨s, rfl⟩ := VT_str ha1
+    simp [builtin] at hr; obtain ⟨rfl, _⟩ := hr; constructor
+  · obtain ⟨s, rfl⟩ := VT_str ha1
+    simp [builtin] at hr; obtain ⟨rfl, _⟩ := hr; constructor
+  · obtain ⟨x, rfl⟩ := VT_float ha1
+    rw [b_f32] at hr; simp at hr; obtain ⟨rfl, _⟩ := hr; constructor
+  · obtain ⟨x, rfl⟩ := VT_float ha1
+    rw [b_f64] at hr; simp at hr; obtain ⟨rfl, _⟩ := hr; constructor
 
 /-! ### constructors -/
 
